@@ -119,27 +119,33 @@ CANARIES = [
     ([{"ev": "tok", "before": "SYMBOL", "after": "SYMBOL", "v": "SYMBOL", "lv": "symbol", "top": {"k": "none", "ty": "", "v": ""}},
       {"ev": "tok", "before": "UNQUOTED_STRING", "after": "UNQUOTED_STRING", "v": "circle", "lv": "circle",
        "top": {"k": "tok", "ty": "SYMBOL", "v": "SYMBOL"}}],
-     {"ev": "out", "kind": "larkerror", "syntax": True, "haspos": True, "line": 1, "col": 8, "nlines": 1, "isdict": False},
+     {"ev": "out", "kind": "larkerror", "stage": "parse", "haspos": True, "line": 1, "col": 8, "nlines": 1, "isdict": False},
      "retype", "ok"),
     ([{"ev": "tok", "before": "GRID", "after": "GRID", "v": "GRID", "lv": "grid", "top": {"k": "tok", "ty": "MAP", "v": "MAP"}}],
-     {"ev": "out", "kind": "other", "syntax": False, "haspos": False, "line": 0, "col": 0, "nlines": 1, "isdict": False},
+     {"ev": "out", "kind": "other", "stage": "parse", "haspos": False, "line": 0, "col": 0, "nlines": 1, "isdict": False},
      "top", "kind"),
     ([{"ev": "tok", "before": "MAP", "after": "MAP", "v": "MAP", "lv": "map", "top": {"k": "none", "ty": "", "v": ""}}],
-     {"ev": "out", "kind": "larkerror", "syntax": True, "haspos": False, "line": 0, "col": 0, "nlines": 1, "isdict": False},
+     {"ev": "out", "kind": "larkerror", "stage": "parse", "haspos": False, "line": 0, "col": 0, "nlines": 1, "isdict": False},
      "", "position"),
     ([{"ev": "tok", "before": "MAP", "after": "MAP", "v": "MAP", "lv": "map", "top": {"k": "none", "ty": "", "v": ""}},
       {"ev": "tok", "before": "_END", "after": "_END", "v": "END", "lv": "end", "top": {"k": "tok", "ty": "MAP", "v": "MAP"}}],
-     {"ev": "out", "kind": "larkerror", "syntax": True, "haspos": True, "line": 5, "col": 1, "nlines": 2, "isdict": False},
+     {"ev": "out", "kind": "larkerror", "stage": "parse", "haspos": True, "line": 5, "col": 1, "nlines": 2, "isdict": False},
      "", "position"),
+    ([], {"ev": "out", "kind": "larkerror", "stage": "transform", "haspos": False, "line": 0, "col": 0, "nlines": 2, "isdict": False},
+     "", "ok"),
+    ([], {"ev": "time", "n0": 100, "t0us": 5000, "n1": 10000, "t1us": 10000100}, "", "time"),
+    ([], {"ev": "time", "n0": 100, "t0us": 5000, "n1": 10000, "t1us": 9999999}, "", "ok"),
+    ([], {"ev": "time", "n0": 100, "t0us": 100, "n1": 10000, "t1us": 900000}, "", "ok"),
     ([{"ev": "tok", "before": "MAP", "after": "MAP", "v": "MAP", "lv": "map", "top": {"k": "none", "ty": "", "v": ""}},
       {"ev": "tok", "before": "_END", "after": "_END", "v": "END", "lv": "end", "top": {"k": "tok", "ty": "MAP", "v": "MAP"}}],
-     {"ev": "out", "kind": "ok", "syntax": False, "haspos": False, "line": 0, "col": 0, "nlines": 1, "isdict": True},
+     {"ev": "out", "kind": "ok", "stage": "none", "haspos": False, "line": 0, "col": 0, "nlines": 1, "isdict": True},
      "", "ok"),
 ]
 
 
-def validate_traces(ck, traces, tag="c11_trace"):
-    """traces: list of (events, outcome, python signature or None, text, opt).  -> list of verdict dicts (by index)"""
+def validate_traces(ck, traces, times=(), tag="c11_trace"):
+    """traces: list of (events, outcome, python signature or None, text, opt); times: list of "time"
+    records.  -> (list of verdict dicts for the traces, list of verdict dicts for the time records)"""
     path = os.path.join(tlc.BUILD, "c11_traces.ndjson")
     ncan = len(CANARIES)
     with open(path, "w") as f:
@@ -154,6 +160,9 @@ def validate_traces(ck, traces, tag="c11_trace"):
             for e in evs:
                 f.write(json.dumps(dict(e, tid=tid)) + "\n")
             f.write(json.dumps(dict(out, tid=tid)) + "\n")
+        for rec in times:
+            tid += 1
+            f.write(json.dumps(dict(rec, tid=tid)) + "\n")
         f.write(json.dumps({"tid": tid + 1, "ev": "eof"}) + "\n")
     cfg = tlc.cfg_text(constants=consts(), init="TraceInit", next_="TraceNext", postcondition="Consumed")
     r = tlc.run("TraceParseLoop", cfg, tag=tag, workers=1, timeout=1800, env={"TRACE_FILE": path}, heap="6g")
@@ -161,36 +170,61 @@ def validate_traces(ck, traces, tag="c11_trace"):
     if r.violated:
         raise common.MachineryFailure("trace file not consumed by TraceParseLoop (%s)" % r.violated)
     vs = {p["tid"]: p for p in r.prints if isinstance(p, dict) and "tid" in p and "drift" in p}
-    if len(vs) != ncan + len(traces):
-        raise common.MachineryFailure("TraceParseLoop gave %d verdicts for %d traces" % (len(vs), ncan + len(traces)))
+    if len(vs) != ncan + len(traces) + len(times):
+        raise common.MachineryFailure("TraceParseLoop gave %d verdicts for %d traces" % (len(vs), ncan + len(traces) + len(times)))
     for i, (_e, _o, d, c) in enumerate(CANARIES):
         v = vs[i + 1]
         if v["drift"] != d or v["contract"] != c:
             raise common.MachineryFailure("trace canary %d judged %s/%s, expected %s/%s" % (i, v["drift"], v["contract"], d, c))
-    return [vs[ncan + 1 + i] for i in range(len(traces))]
+    return ([vs[ncan + 1 + i] for i in range(len(traces))],
+            [vs[ncan + len(traces) + 1 + i] for i in range(len(times))])
 
 
-def analyse_timing(ck, res, factor, cover):
+def time_record(ck, res, hdr, cover):
+    """one measured shape -> the "time" record TimeOK (spec/ParseLoop.tla) judges, + evidence entry"""
     name = res["name"]
     pts = res["points"]
     (n0, c0, t0, w0, k0) = pts[0]
     (n1, c1, t1, w1, k1) = pts[-1]
-    t0 = max(t0, 2e-4)
-    lin = t0 * (n1 / float(n0))
-    ratio = t1 / lin
-    cover[name] = {"points": [[n, c, round(t, 4), round(w, 4), k] for (n, c, t, w, k) in pts],
-                   "columns": ["tokens", "chars", "cpu_s", "wall_s", "outcome"],
+    rec = {"ev": "time", "n0": int(n0), "t0us": max(100, int(t0 * 1e6)), "n1": int(n1), "t1us": min(int(t1 * 1e6), 2000000000)}
+    ratio = (rec["t1us"] / float(n1 // n0)) / rec["t0us"]
+    cover[name] = {"points": [[n, c, round(t, 5), round(w, 5), k] for (n, c, t, w, k) in pts],
+                   "columns": ["tokens_or_units", "chars", "cpu_s", "wall_s", "outcome"],
                    "ratio_vs_linear": round(ratio, 2), "killed": res["killed"]}
     ck.count(len(pts))
     for (n, c, t, w, k) in pts:
         if k.startswith("other:"):
             ck.violation("C11|exc|%s|long=%s" % (k[6:], name), "%s escaped on the long input %s (%d tokens)" % (k[6:], name, n),
                          {"shape": name, "tokens": n})
-    if res["killed"] or (ratio > factor and t1 > 1.0):
+    mirror = rec["t1us"] > hdr["timefloorus"] and rec["t1us"] // (n1 // n0) > hdr["timefactor"] * rec["t0us"]
+    return rec, mirror
+
+
+def time_verdict(ck, res, rec, mirror, vd, cover):
+    name = res["name"]
+    bad = vd["contract"] != "ok"
+    if bad != mirror:
+        raise common.MachineryFailure("TimeOK (TLC) and the harness disagree on %r: %s vs %s" % (rec, vd["contract"], mirror))
+    if bad:
+        pts = res["points"]
         ck.violation("C11|time|%s" % name,
-                     "super-linear time on the repetitive input %r: %d tokens %.3fs, %d tokens %s%.1fs CPU = %s%.0fx the linear extrapolation"
-                     % (name, n0, t0, n1, ">" if res["killed"] else "", t1, ">" if res["killed"] else "", ratio),
+                     "super-linear time on the repetitive input %r: %d tokens/units %.4fs, %d tokens/units %s%.1fs CPU = %s%.0fx the linear extrapolation"
+                     % (name, pts[0][0], pts[0][2], pts[-1][0], ">" if res["killed"] else "", pts[-1][2],
+                        ">" if res["killed"] else "", cover[name]["ratio_vs_linear"]),
                      {"shape": name, "sizes": [p[0] for p in pts], "points": cover[name]["points"]})
+
+
+class _Count:
+    """stands in for Check.distinct (only its length is used): millions of behaviours are counted, not hashed"""
+
+    def __init__(self, n):
+        self.n = n
+
+    def __len__(self):
+        return self.n
+
+    def add(self, _x):
+        pass
 
 
 def run(tier):
@@ -226,6 +260,9 @@ def run(tier):
     if not quick:
         jobs.append(("soup_core5", ["EmitSoup"], dict(c=dict(MaxLen=5, Alphabet=set(CORE)))))
     jobs.append(("min", ["EmitMin", "Contract", "MinimalAccepted"], dict(c=dict(Mode="min"))))
+    # single lexemes: delimiter x filler unit x closed/unterminated x context x length (exhaustive product)
+    jobs.append(("lex", ["EmitLex", "Contract"], dict(c=dict(Mode="lex"))))
+    jobs.append(("lextime", ["EmitLex", "Contract"], dict(c=dict(Mode="lextime"))))
     jobs.append(("mut", ["EmitMut", "TypeOK", "PrevIsLast", "RetypeSound"], dict(c=dict(Mode="mut", MaxMut=1 if quick else 2))))
     nsim = 3000 if quick else 40000
     jobs.append(("mutsim", ["EmitMutDone", "TypeOK"],
@@ -266,7 +303,7 @@ def run(tier):
     hdr = None
     sizes = {}
     for tag, r in results.items():
-        if tag.startswith(("soup_", "min", "mut", "sim")):
+        if tag.startswith(("soup_", "min", "mut", "sim", "lex")):
             h, beh = split_prints(r)
             hdr = hdr or h
             pl.DATA[tag] = beh
@@ -281,6 +318,13 @@ def run(tier):
     want_roots = set(v["grammar"]["block_types"]) | {"symbolset"}
     if sizes["min"] != len(want_roots) or {b["t"] for b in pl.DATA["min"]} != want_roots:
         raise common.MachineryFailure("expected one minimal document per block type (%d), got %d" % (len(want_roots), sizes["min"]))
+    if hdr.get("timefactor") != factor:
+        raise common.MachineryFailure("TimeFactor of the spec (%s) and of the harness (%s) differ" % (hdr.get("timefactor"), factor))
+    pl.DATA["lex"].sort(key=lambda b: (b["lex"]["d"], b["lex"]["u"], b["lex"]["closed"], b["lex"]["n"], b["lex"]["ctx"]))
+    # the lexeme timing shapes join the timing pool now (it has been running the long shapes since the start)
+    lsizes = [10, 100, 1000, 10000] if quick else [10, 100, 1000, 10000, 100000]
+    tasync2 = tpool.imap_unordered(pl.time_shape, [(pl.lex_name(dict(b["lex"], ctx="value", n=0)), lsizes, 3, factor)
+                                                   for b in pl.DATA["lextime"]])
     pl.CFG.update(seed=seed, allowed=hdr["allowed"], symattrs=symattrs)
     pl.CORPUS[:] = corpus + wdocs
     rng = random.Random(seed * 7919 + 5)
@@ -319,6 +363,7 @@ def run(tier):
     add(pl.class_batch, "mutsim", 1000, rooted=False, texts=2, rec_every=40, pub_every=pub_every, limit=20.0)
     add(pl.class_batch, "sim", 500, rooted=False, texts=1, rec_every=25, pub_every=pub_every, limit=20.0)
     add(pl.window_batch, "mutw", 150, n=WINDOW, rec_every=60 if quick else 200, limit=60.0)
+    add(pl.lex_batch, "lex", 144, limit=3.0)
     # the slow corpus jobs first
     work.sort(key=lambda w: 0 if w[0] is pl.window_batch else 1)
     asyncs = [(fn.__name__, job["tag"], pool.apply_async(fn, (job,))) for (fn, job) in work]
@@ -356,21 +401,43 @@ def run(tier):
     for tag, n in sizes.items():
         if not tag.endswith(":plan"):
             ck.nontrivial("%s:%d" % (tag, n))
-    # distinct behaviours = number of TLC-emitted behaviours replayed
-    ndistinct = sum(sizes.values())
+    # distinct behaviours that reached the parser: exhaustive runs emit each state once, simulated
+    # behaviours are deduplicated here
+    ndistinct = 0
+    for tag, n in sizes.items():
+        if tag == "lextime":
+            continue
+        data = pl.DATA[tag]
+        if tag in ("mutsim", "mutw", "sim"):
+            n = len({b if isinstance(b, str) else json.dumps([b["s"], b.get("muts")], sort_keys=True) for b in data})
+        ndistinct += n
+    ck.distinct = _Count(ndistinct)
 
     # the 19 block types (+SYMBOLSET) as root: must all have been seen accepted
     for t in sorted(want_roots - roots_ok):
         ck.violation("C11|root-rejected|%s" % t, "block type %s was never accepted as the root of a partial Mapfile" % t,
                      {"text": "%s END" % t.upper(), "opt": ""})
 
+    # ------------------------------------------------------------------ timing clause (measured), judged by TimeOK in TLC
+    tcover = {}
+    t_wait = time.time()
+    tres = []
+    for res in list(tasync) + list(tasync2):
+        rec, mirror = time_record(ck, res, hdr, tcover)
+        tres.append((res, rec, mirror))
+    tpool.close()
+    tpool.join()
+    t_waited = time.time() - t_wait
+
     # ------------------------------------------------------------------ (T) trace validation
     drift_n = 0
+    if len(traces) > (9000 if quick else 40000):
+        random.Random(seed).shuffle(traces)
+        traces = traces[: (9000 if quick else 40000)]
+    verdicts, tverdicts = validate_traces(ck, traces, [t[1] for t in tres])
+    for (res, rec, mirror), vd in zip(tres, tverdicts):
+        time_verdict(ck, res, rec, mirror, vd, tcover)
     if traces:
-        if len(traces) > (9000 if quick else 40000):
-            random.Random(seed).shuffle(traces)
-            traces = traces[: (9000 if quick else 40000)]
-        verdicts = validate_traces(ck, traces)
         agree = 0
         for (evs, out, pysig, text, opt), vd in zip(traces, verdicts):
             py_bad = pysig is not None and not pysig.startswith("C11|root-rejected")
@@ -396,29 +463,27 @@ def run(tier):
     else:
         ck.notes.append("the iter_parse seam produced no events (seam absent after a refactoring?): only outcomes were judged")
 
-    # ------------------------------------------------------------------ timing clause (measured)
-    tcover = {}
-    t_wait = time.time()
-    for res in tasync:
-        analyse_timing(ck, res, factor, tcover)
-    tpool.close()
-    tpool.join()
+    nlex = sum(1 for k in tcover if k.startswith("lexeme:"))
     ck.notes.append("TIMING: the TLA+ model does not decide the 'time roughly proportional to length' clause; it is measured: "
-                    "%d repetitive shapes at %s tokens (expression nesting / operator chains <= 100), "
-                    "process CPU time per call (wall time also recorded; the host is shared), violation when t(100n) > %dx the linear extrapolation of t(n) "
-                    "(the long call is abandoned at that point)"
-                    % (len(tcover), tsizes, int(factor)))
+                    "%d repetitive shapes at %s tokens (expression nesting / operator chains <= 100) and %d single-lexeme shapes "
+                    "(delimiter x filler unit x closed/unterminated, LexTimed of the spec) at %s filler units; process CPU time per "
+                    "call (wall time also recorded; the host is shared); each (n0, t0, n1, t1) pair is judged by TimeOK of "
+                    "spec/ParseLoop.tla in TLC (t1 <= 1 s, or t1/(n1/n0) <= %d x t0); a call is abandoned once it exceeds that bound"
+                    % (len(tcover) - nlex, tsizes, nlex, lsizes, int(factor)))
     ck.notes.append("include expansion kept out with expand_includes=False (reused Parser/MapfileToDict per worker; public mappyfile.loads sampled)")
     ck.sample({"outcome_counts": {"%s/%s" % k: n for k, n in sorted(counts.items())}})
     ck.sample({"behaviours": sizes, "evaluations_per_origin": per_origin})
-    ck.sample({"timing": {k: tcover[k]["ratio_vs_linear"] for k in sorted(tcover)}})
+    ck.sample({"timing": {k: tcover[k]["ratio_vs_linear"] for k in sorted(tcover) if not k.startswith("lexeme:")},
+               "lexeme_timing_max_ratio": max([tcover[k]["ratio_vs_linear"] for k in tcover if k.startswith("lexeme:")] or [0])})
     return ck.finish(exhaustive=False, coverage_extra={
         "distinct_nontrivial": ndistinct,
         "soup_alphabet": len(CLASSES), "soup_max_len": L, "behaviours_replayed": ndistinct,
         "corpus_files": ncorp, "generated_docs": len(wdocs), "roots_accepted": sorted(roots_ok),
         "traces_tlc_validated": len(traces), "mechanism_drift_traces": drift_n,
-        "timing": tcover, "phase_wall_s": {"tlc": round(t_tlc, 1), "replay_pool": round(t_pool, 1),
-                                           "waiting_for_timing": round(time.time() - t_wait, 1)},
+        "timing": {k: x for k, x in tcover.items() if not k.startswith("lexeme:") or x["ratio_vs_linear"] > 3 or x["killed"]},
+        "lexeme_timing_ratio": {k[7:]: x["ratio_vs_linear"] for k, x in sorted(tcover.items()) if k.startswith("lexeme:")},
+        "phase_wall_s": {"tlc": round(t_tlc, 1), "replay_pool": round(t_pool, 1),
+                                           "waiting_for_timing": round(t_waited, 1)},
         "replay_cpu_s_per_origin": cpu_origin})
 
 
